@@ -102,6 +102,12 @@ TraceForward == /\ WellFormed(raw)
                 /\ LET a == Recovered(c.orig)
                        b == Recovered(raw)
                    IN b = [a EXCEPT !.fields = {f \in a.fields : f[1] # 7} \cup {<<7, <<"s">>, c.sender>>}]
+(* the same for a message parsed from foreign bytes and serialised again: header fields of unknown code are not
+   carried over (they must be ignored by whoever receives them), everything known is *)
+TraceResent == /\ WellFormed(raw)
+               /\ LET a == RecoveredK(c.orig)
+                      b == RecoveredK(raw)
+                  IN b = [a EXCEPT !.fields = {f \in a.fields : f[1] # 7} \cup {<<7, <<"s">>, c.sender>>}]
 (* a message the bus produced itself *)
 TraceWellFormed == WellFormed(raw)
 
